@@ -184,17 +184,31 @@ Qed.
 
 (* a text field of [size] bits: [size / 6] characters, trimmed; the no-allocator capacity of
    20 characters is never reached by the fixed-width callers (size <= 120) *)
-Lemma reads_parse_6bit_ascii c size :
-  (size / 6 <= 20)%nat ->
+Lemma reads_parse_6bit_ascii' c size :
+  noalloc c = false \/ (size / 6 <= 20)%nat ->
   reads (parse_6bit_ascii c size) (6 * (size / 6)) (fun bs p => text_at bs p (size / 6)).
 Proof.
   intros Hs. unfold parse_6bit_ascii.
   replace (noalloc c && (MAX_6BIT_ARRAY_BYTES <? size / 6)%nat) with false.
-  2:{ unfold MAX_6BIT_ARRAY_BYTES. destruct (Nat.ltb_spec 20 (size / 6)); [lia|]. destruct (noalloc c); reflexivity. }
+  2:{ unfold MAX_6BIT_ARRAY_BYTES. destruct Hs as [->|Hs]; [reflexivity|].
+      destruct (Nat.ltb_spec 20 (size / 6)); [lia|]. destruct (noalloc c); reflexivity. }
   intros bs p Hp. unfold bind.
   pose proof (reads_count_chars (size / 6) bs p Hp) as Hc.
   destruct (6 * (size / 6) + p <=? length bs)%nat; rewrite Hc; [|reflexivity].
   rewrite chars_at_ascii. reflexivity.
+Qed.
+
+Lemma reads_parse_6bit_ascii c size :
+  (size / 6 <= 20)%nat ->
+  reads (parse_6bit_ascii c size) (6 * (size / 6)) (fun bs p => text_at bs p (size / 6)).
+Proof. intros H. apply reads_parse_6bit_ascii'. right; exact H. Qed.
+
+(* without an allocator a text of more than 20 characters is rejected, not truncated *)
+Lemma parse_6bit_ascii_too_large c size bs p :
+  noalloc c = true -> (20 < size / 6)%nat -> parse_6bit_ascii c size bs p = Err EFailure.
+Proof.
+  intros Hc Hs. unfold parse_6bit_ascii, MAX_6BIT_ARRAY_BYTES. rewrite Hc.
+  destruct (Nat.ltb_spec 20 (size / 6)); [reflexivity|lia].
 Qed.
 
 (* ---------- absence of panics ---------- *)
